@@ -24,8 +24,15 @@ Tokens == { "", "f", "f1", "f99999999999999999999", "f-1", "+", "ctrl", "CTRL", 
             \* modifier words of the key model that the documented syntax does not have
             "numlock+", "numlock", "release+", "repeat+" }
 Hostile == { [kind |-> "chord", mode |-> "free", text |-> a \o b \o c, exptext |-> "", expname |-> "", expbits |-> 0] : a \in Tokens, b \in Tokens, c \in Tokens }
-ASSUME ndJsonSerialize(IOEnv.OUT, SetToSeq(KeyVec) \o SetToSeq(Hostile))
-ASSUME PrintT(<<"GENERATED", Cardinality(KeyVec), Cardinality(Hostile)>>)
+\* every printable ASCII character as a key name: bare, double-quoted and single-quoted, alone and under modifiers,
+\* as a key and as the second key of a chord; judged for totality and the print/parse round trip of whatever is accepted
+Ascii == { " ", "!", "\"", "#", "$", "%", "&", "'", "(", ")", "*", "+", ",", "-", ".", "/", "0", "1", "2", "3", "4", "5", "6", "7", "8", "9", ":", ";", "<", "=", ">", "?", "@", "A", "B", "C", "D", "E", "F", "G", "H", "I", "J", "K", "L", "M", "N", "O", "P", "Q", "R", "S", "T", "U", "V", "W", "X", "Y", "Z", "[", "\\", "]", "^", "_", "`", "a", "b", "c", "d", "e", "f", "g", "h", "i", "j", "k", "l", "m", "n", "o", "p", "q", "r", "s", "t", "u", "v", "w", "x", "y", "z", "{", "|", "}", "~" }
+AsciiForms(c) == { c, "\"" \o c \o "\"", "'" \o c \o "'" }
+AsciiPrefix == { "", "ctrl+", "shift+alt+" }
+AsciiVec == { [kind |-> "key", mode |-> "free", text |-> m \o f, exptext |-> "", expname |-> "", expbits |-> 0] : m \in AsciiPrefix, f \in UNION { AsciiForms(c) : c \in Ascii } }
+      \cup { [kind |-> "chord", mode |-> "free", text |-> "a " \o m \o f, exptext |-> "", expname |-> "", expbits |-> 0] : m \in AsciiPrefix, f \in UNION { AsciiForms(c) : c \in Ascii } }
+ASSUME ndJsonSerialize(IOEnv.OUT, SetToSeq(KeyVec) \o SetToSeq(Hostile) \o SetToSeq(AsciiVec))
+ASSUME PrintT(<<"GENERATED", Cardinality(KeyVec), Cardinality(Hostile), Cardinality(AsciiVec)>>)
 VARIABLE x
 Init == x = 0
 Next == UNCHANGED x
